@@ -258,6 +258,9 @@ class Terms:
             return args[0]
         if "::FromResidual<" in path and path.endswith(">::from_residual"):
             return ("residual", args[0] if args else None)
+        if path in ("std::sync::RwLock::<T>::read", "std::sync::RwLock::<T>::write") and pos is not None:
+            # distinguish lock acquisitions by their site
+            return ("call", "%s@bb%d" % (path, pos[0]), args)
         return ("call", path, args)
 
     def at_call(self, bi, t, i):
